@@ -16,6 +16,9 @@
 #define CF_L 2
 #endif
 #include "cfbuild.h"
+#ifndef RKINDS
+#define RKINDS 0
+#endif
 
 static void vexit(int code);
 #define exit(n) vexit(n)
@@ -35,6 +38,11 @@ long FileSize(FILE* f) { return VF(f)->size; }
 char const* Blanks(int n) { (void)n; return ""; }
 static TFamilyDescr fam_known = { "FAM", 0x11, eHexFormatDefault };
 PFamilyDescr FindFamilyById(Word Num) { (void)Num; return &fam_known; }
+
+/* toolutils.c ReadRelocInfo is cut: the files built here hold no relocation-info record (the branch is infeasible, but the
+   record header is read at a symbolic file position and symex would explore the table reader) */
+PRelocInfo ReadRelocInfo(FILE* f) { (void)f; CHECK(0, "no relocation-info record in these files"); ASSUME(0); return NULL; }
+void DestroyRelocInfo(PRelocInfo p) { (void)p; }
 
 static VFILE src;
 static char srcname[2] = "s";
@@ -94,7 +102,7 @@ void harness(void)
   cf_load();
   for (r = 0; r < CF_R; r++)
   {
-    ASSUME(in_rkind[r] <= 1);                      /* data records, long and short form */
+    in_rkind[r] = (RKINDS >> r) & 1;               /* data records, long (0) or short (1) form: concrete per obligation, so that the file layout is concrete */
     ASSUME(in_rcpu[r] != 0 && (in_rkind[r] != 1 || in_rcpu[r] < 0x80));
     ASSUME(in_rseg[r] < SegCount);
     ASSUME(in_rgran[r] == 1 || in_rgran[r] == 2 || in_rgran[r] == 4);
